@@ -184,6 +184,13 @@ def pool():
                       "title": {"text": ["TT0", "TT1", "TT2"], "text_color": ["red", "blue", "darkgreen"],
                                 "text_background_color": ["", "khaki", ""]},
                       "page_footer": {"text": ["PF0", "PF1"], "text_color": ["navy", "tomato"]}}
+    # constant / duplicated cell texts (the same string is measured again right after itself), wrapped and paginated
+    LONGT = "lorem ipsum dolor sit amet consectetur adipiscing elit sed do eiusmod tempor incididunt ut labore " * 2
+    P["const_a"] = {"kind": "table", "page": {"nrow": 8}, "title": TT, "body": {"col_rel_width": [1, 3]},
+                    "df": tagged(10, 1, extra=[{"name": "N1", "dtype": "str",
+                                                "values": ["x", LONGT] * 5}])}
+    P["const_b"] = {"kind": "table", "page": {"nrow": 8}, "title": TT, "body": {"col_rel_width": [1, 3]},
+                    "df": tagged(10, 1, extra=[{"name": "N1", "dtype": "str", "values": [LONGT] * 10}])}
     # the default colour spelled out ("black") next to real colours
     P["blk_a"] = {"kind": "table", "df": tagged(3, 3), "body": {"text_color": ["black", "red", "black"],
                                                                 "text_background_color": [["", "black", "wheat"]]},
